@@ -22,6 +22,8 @@ import z3
 from . import symcore as sc
 
 VERIF = os.path.dirname(os.path.dirname(os.path.abspath(__file__)))
+# evidence and replays go to /verif; runs against deliberately changed trees (seeded changes) redirect them
+OUT = os.environ.get("EVOVERIF_OUT", VERIF)
 KNOWN_FILE = os.path.join(VERIF, "known_findings.json")
 
 
@@ -189,6 +191,13 @@ def check_obligations(col, ctx, goals, inputs, replay, known=None, descr=None, t
                                      witness_hook=witness_hook)
         finally:
             ctx.assumptions = saved
+    if callable(goals):
+        # goals built lazily: a nan/inf of the code under test (poison) where the property needs a value is
+        # itself a failed obligation on this path (decided by the replay on the real code)
+        try:
+            goals = goals()
+        except sc.PoisonValue as e:
+            goals = {"results_are_numbers_where_the_property_requires_values (%s)" % e: z3.BoolVal(False)}
     goals = {k: v for k, v in goals.items()}
     if not goals:
         return True
@@ -371,7 +380,9 @@ def explore_case(col, fn, assumptions, on_ok=None, on_exc=None, timeout_ms=20000
     # vacuity guard: the exploration must contain at least one path shown satisfiable end to end
     # (paths visited under the light abstraction may be infeasible; that is sound and expected)
     if res and not reached:
-        if any(x == "unknown" for v in tried.values() for x in v):
+        if all(p.status in ("notenc", "inconclusive") for p in res):
+            pass        # nothing could be encoded: already recorded as inconclusive, not a vacuous harness
+        elif any(x == "unknown" for v in tried.values() for x in v):
             col.d["inconclusive"].append(dict(ob="reachability", why="no path could be shown satisfiable (solver unknown)"))
         else:
             col.d["harness_errors"].append(dict(ob="reachability", why="no explored path is satisfiable: vacuous harness"))
@@ -382,7 +393,8 @@ def explore_case(col, fn, assumptions, on_ok=None, on_exc=None, timeout_ms=20000
         if cls not in reached:
             why = "outcome class %r, on which this case's claim rests, was not shown reachable (%s)" % (
                 cls, ",".join(map(str, tried.get(cls, ["no such path"]))))
-            if any(x == "unknown" for x in tried.get(cls, [])):
+            if any(x == "unknown" for x in tried.get(cls, [])) or (
+                    res and any(p.status in ("notenc", "inconclusive") for p in res)):
                 col.d["inconclusive"].append(dict(ob="reachability", why=why))
             else:
                 col.d["harness_errors"].append(dict(ob="reachability", why=why))
@@ -467,7 +479,7 @@ def finish(prop, tier, seed, h, cases, results, wall):
             samples.append(dict(case=d["case"], **s))
     samples = samples[:12] or [dict(case=c["name"]) for c in cases[:3]]
     # replay files
-    rdir = os.path.join(VERIF, "replays", prop)
+    rdir = os.path.join(OUT, "replays", prop)
     lines = []
     if violations:
         os.makedirs(rdir, exist_ok=True)
@@ -540,8 +552,8 @@ def finish(prop, tier, seed, h, cases, results, wall):
             "numpy/scipy C-level kernels are replaced by the listed contract stubs"],
         wall_s=round(wall, 2), violations=len(violations),
     )
-    os.makedirs(os.path.join(VERIF, "evidence"), exist_ok=True)
-    with open(os.path.join(VERIF, "evidence", "%s.json" % prop), "w") as f:
+    os.makedirs(os.path.join(OUT, "evidence"), exist_ok=True)
+    with open(os.path.join(OUT, "evidence", "%s.json" % prop), "w") as f:
         json.dump(ev, f, indent=1, default=str)
     print("%s tier=%s cases=%d paths=%d obligations=%d discharged=%d violations=%d known=%d "
           "inconclusive=%d harness_errors=%d queries=%d solver=%.1fs wall=%.1fs -> exit %d" % (
